@@ -16,12 +16,16 @@ numbers (0 -> '', k -> 'n<k>' / 'i<k>').  ``style`` selects how the arguments ar
   "infer"   provided / required are left out and inferred from declarations on the component /
             factory (set just before the call)
   "class"   class specifications in ``required`` are passed as the classes themselves
+  "named"   (registerUtility / registerAdapter) the name is left out and inferred from a ``named()``
+            decoration of the component / factory (removed again after the call)
+  "inferall" "infer" and "named" together
 """
 import _boot
 import reg_common as R
 
 import zope.interface.registry as ZR
 from zope.interface import directlyProvides, implementer
+from zope.interface.declarations import named
 from zope.interface.registry import Components
 
 
@@ -261,6 +265,15 @@ def do_op(env, op):
         if style == "infer":
             directlyProvides(comp, prov)
             return c.registerUtility(comp, name=name, info=info, event=ev)
+        if style in ("named", "inferall") and name != "":
+            named(name)(comp)
+            try:
+                if style == "inferall":
+                    directlyProvides(comp, prov)
+                    return c.registerUtility(comp, info=info, event=ev)
+                return c.registerUtility(comp, prov, info=info, event=ev)
+            finally:
+                del comp.__component_name__
         return c.registerUtility(comp, prov, name, info, ev)
     if k == "unregU":
         _, v, p, n, style = op
@@ -281,6 +294,16 @@ def do_op(env, op):
             set_implemented(f, prov)
             f.__component_adapts__ = env.req(req, "plain")
             return meth(f, name=name, info=info, event=ev)
+        if k == "regA" and style in ("named", "inferall") and name != "":
+            named(name)(f)
+            try:
+                if style == "inferall":
+                    set_implemented(f, prov)
+                    f.__component_adapts__ = env.req(req, "plain")
+                    return meth(f, info=info, event=ev)
+                return meth(f, env.req(req, "plain"), prov, info=info, event=ev)
+            finally:
+                del f.__component_name__
         return meth(f, env.req(req, style), prov, name, info, ev)
     if k in ("unregA", "unregS"):
         _, v, req, p, n, style = op
